@@ -91,7 +91,7 @@ def run_one(ch):
                 # host names are case-insensitive: the same endpoint, the same pin
                 tu = tu.replace("gemini://" + nodes[t]["host"], "gemini://" + nodes[t]["host"].upper())
                 nd["spelled"] = True
-            nd.update(kind="redirect", target=t, meta=tu, status=ch.pick("rstatus", [30, 31]))
+            nd.update(kind="redirect", target=t, meta=tu, status=ch.pick("rstatus", [30, 31, 30, 31, 32, 37, 39]))
             # what the hop does after its (complete) redirect header: a 3x is complete at the
             # CRLF, whatever the server does with the connection afterwards
             nd["after"] = ch.pick("rafter", ["close", "stall", "rst"], [8, 1, 1])
